@@ -3,12 +3,17 @@ Spec: Refs.tla - a monitor over the occurrence table recorded from the real anal
 (i) o in refs[d] <=> goto[o] = d for occurrences spelled with d's own name, (ii) d in refs[d], (iii) no duplicates,
 (iv) the same set from every listed occurrence, (v) highlight = refs restricted to the current file.
 MON: TLC evaluates the monitor on every recorded table (generated programs, the corpus, broken variants).
-GEN: for GleamGen programs refs[d] is additionally compared with the specification's own {o : target(o) = d}."""
+GEN: for GleamGen programs refs[d] is additionally compared with the specification's own {o : target(o) = d}.
+Workspaces have two local packages (the first file in `app`, the others - the library modules m2 and sub/m2 - in `lib`,
+which `app` depends on), one in four a single package; the occurrence table covers every file, so references asked from
+a library declaration must list the uses in the dependent package and vice versa."""
 import glob, json, os, random, re
 import vlib
 from checks import scope_common
 
-LIB = "pub fn a(x) { x }\npub fn c() { 1 }\nfn p() { 2 }\npub type A { A(a: Int) C }\npub const k = 1\npub type T { W }\ntype P { Q }\n"
+# the fixed library modules of the generated programs (m2 and sub/m2, in the package `lib` the program's package depends on)
+LIB = scope_common.lib_texts()["m2"]
+SUB = scope_common.lib_texts()["sub/m2"]
 
 
 def text_of(case):
@@ -36,9 +41,11 @@ def workspaces(out, tier, seed):
     rnd = random.Random(seed)
     n_gen, n_broken = (250, 250) if tier == "quick" else (3000, 3000)
     sample = main.sample(rnd, n_gen)
-    ws = [{"files": [["m1", text_of(c)], ["m2", LIB]], "label": "generated"} for c in sample]
+    ws = [{"files": [["m1", text_of(c)], ["m2", LIB], ["sub/m2", SUB]], "label": "generated"} for c in sample]
     for c in main.sample(rnd, n_broken):
-        ws.append({"files": [["m1", broken(text_of(c), rnd)], ["m2", broken(LIB, rnd) if rnd.random() < 0.3 else LIB]], "label": "broken"})
+        r = rnd.random()
+        ws.append({"files": [["m1", broken(text_of(c), rnd)], ["m2", broken(LIB, rnd) if r < 0.2 else LIB], ["sub/m2", broken(SUB, rnd) if r > 0.8 else SUB]],
+                   "label": "broken"})
     # corpus: small files whole; the big stdlib file cut into item-aligned chunks (whole for thorough)
     for f in sorted(glob.glob(os.path.join(vlib.VERIF, "corpus", "**", "*.gleam"), recursive=True)):
         t = open(f, encoding="utf-8").read()
@@ -91,7 +98,7 @@ def monitor(out, ws, name, chunk=120):
                     b = occ[it[1] - 1] if isinstance(it, list) else None
                     nfail += 1
                     out.report({"what": "monitor", "conjunct": conj, "binder_kind": a.get("gkind"), "label": str(t.get("label")).split(":")[0]},
-                               {"workspace": ws[t["ws"]], "a": a, "b": b})
+                               {"workspace": dict(ws[t["ws"]], shape=t.get("shape")), "a": a, "b": b})
     out.cov["traces_validated_against_impl"] += len(tables)
     out.cov["evaluations"] += summary["queries"]
     return summary
